@@ -86,6 +86,12 @@ add("C20", "vp_sig",
     "Trusted: libm sin for the reference shape; stated tolerances (1e-12 / 2e-7 / 1e-9*n / 1 LSB).",
     "DESIGN.md §4 C20")
 
+add("C17", "vp_sig",
+    "proptest + long deterministic runs against an exact accumulated-phase model; metamorphic/purity relations for noise",
+    "Oscillators driven at random and boundary rates with constant (ConstHz) and per-frame (Hz over an instrumented frequency signal) frequencies from 0 to 1e12 x rate, runs to 2000 frames plus 1e6-frame (thorough 2e7) tiny-step, huge-step, varying and exact-regime runs: phase in [0,1) and starting at 0, phase == frac(sum of steps) exactly in the exact regime (power-of-two rate, dyadic steps) and within n*2^-52*(1+step_max) otherwise, sine/saw/square against the observed phase, simplex noise in range and equal to its value at the same phase, one frequency frame consumed per output frame. Noise: boundary seeds (0, 1, 2^32, 2^63, u64::MAX-k for k<=300) and random seeds: in range, no panic, reproducible on restart and clone, frame n of noise(s) == frame 0 of noise(s+n).",
+    "Trusted: libm sin/cos for the references; the phase observer is a second instance of the same Phase code (the model checks it against exact accumulation).",
+    "DESIGN.md §4 C17")
+
 PENDING_REASON = "check not yet built in this round (design in DESIGN.md §4); nothing is claimed for it until its check is registered"
 
 def main():
